@@ -751,22 +751,9 @@ package meta
 //@   ensures restores_id: sgi.ID == u64(pb.ID)
 //@   ensures restores_times: sgi.StartTime.UnixNano() == i64(pb.StartTime) && sgi.EndTime.UnixNano() == i64(pb.EndTime) && utime_ok(sgi.DeletedAt, i64(pb.DeletedAt)) && (pb.TruncatedAt != nil ==> utime_ok(sgi.TruncatedAt, i64(pb.TruncatedAt)))
 //@   ensures one_shard_per_message: len(pb.Shards) > 0 ==> len(sgi.Shards) == len(pb.Shards)
+//@   modifies ShardGroupInfo.all, ShardInfo.all, ShardOwner.all
 
 // children that are not detailed here: only that they write nothing but their receiver (assumed)
-//@ func (DatabaseInfo).marshal
-//@   assumed
-//@   modifies nothing
-//@   ensures result != nil
-//@ func (*DatabaseInfo).unmarshal
-//@   assumed
-//@   modifies DatabaseInfo.all, RetentionPolicyInfo.all, ShardGroupInfo.all, ShardInfo.all, ShardOwner.all, SubscriptionInfo.all, ContinuousQueryInfo.all
-//@ func (UserInfo).marshal
-//@   assumed
-//@   modifies nothing
-//@   ensures result != nil
-//@ func (*UserInfo).unmarshal
-//@   assumed
-//@   modifies UserInfo.all
 //@ func (*Data).hasAdminUser
 //@   assumed
 //@   modifies nothing
@@ -820,3 +807,84 @@ package meta
 //@   nosafety
 //@   call close#1 requires term_and_index_are_stamped_on_a_private_copy: fresh(fsm.data)
 //@   at after proto.Unmarshal#1: assume callresult0 == nil
+
+// ---- C07: the remaining metadata types carry and restore their names, durations and flags ----
+// (element lists: one message per element and every element handed to its own marshal / unmarshal; the element
+// types' own contracts say what each carries)
+//@ func (ContinuousQueryInfo).marshal
+//@   props C07
+//@   ensures carries_all: result != nil && fresh(result) && str(result.Name) == cqi.Name && str(result.Query) == cqi.Query
+//@   modifies nothing
+//@ func (*ContinuousQueryInfo).unmarshal
+//@   props C07
+//@   requires pb != nil
+//@   ensures restores_all: cqi.Name == str(pb.Name) && cqi.Query == str(pb.Query)
+//@   modifies cqi.Name, cqi.Query
+
+//@ func (SubscriptionInfo).marshal
+//@   props C07
+//@   nosafety
+//@   loop 1 invariant building: pb != nil && fresh(pb) && str(pb.Name) == si.Name && str(pb.Mode) == si.Mode && len(pb.Destinations) == len(si.Destinations) && (len(pb.Destinations) == 0 || fresh(pb.Destinations))
+//@   loop 1 invariant copied_so_far: all(k, 0, rangeindex+1, pb.Destinations[k] == si.Destinations[k])
+//@   ensures carries_all: result != nil && str(result.Name) == si.Name && str(result.Mode) == si.Mode && len(result.Destinations) == len(si.Destinations) && all(k, 0, len(si.Destinations), result.Destinations[k] == si.Destinations[k])
+//@   modifies nothing
+//@ func (*SubscriptionInfo).unmarshal
+//@   props C07
+//@   nosafety
+//@   requires pb != nil
+//@   ensures restores_all: si.Name == str(pb.Name) && si.Mode == str(pb.Mode) && (len(pb.Destinations) > 0 ==> len(si.Destinations) == len(pb.Destinations) && all(k, 0, len(pb.Destinations), si.Destinations[k] == pb.Destinations[k]))
+//@   modifies si.Name, si.Mode, si.Destinations
+
+//@ func (*RetentionPolicyInfo).marshal
+//@   props C07
+//@   nosafety
+//@   requires replica_count_fits: 0 <= rpi.ReplicaN && rpi.ReplicaN < 4294967296
+//@   loop 1 invariant building: pb != nil && fresh(pb) && str(pb.Name) == rpi.Name && u64(pb.ReplicaN) == rpi.ReplicaN && i64(pb.Duration) == rpi.Duration && i64(pb.ShardGroupDuration) == rpi.ShardGroupDuration && len(pb.ShardGroups) == len(rpi.ShardGroups)
+//@   loop 2 invariant building: pb != nil && fresh(pb) && str(pb.Name) == rpi.Name && u64(pb.ReplicaN) == rpi.ReplicaN && i64(pb.Duration) == rpi.Duration && i64(pb.ShardGroupDuration) == rpi.ShardGroupDuration && len(pb.ShardGroups) == len(rpi.ShardGroups) && len(pb.Subscriptions) == len(rpi.Subscriptions)
+//@   ensures carries_name_replication_and_durations: result != nil && str(result.Name) == rpi.Name && u64(result.ReplicaN) == rpi.ReplicaN && i64(result.Duration) == rpi.Duration && i64(result.ShardGroupDuration) == rpi.ShardGroupDuration
+//@   ensures one_message_per_element: len(result.ShardGroups) == len(rpi.ShardGroups) && len(result.Subscriptions) == len(rpi.Subscriptions)
+//@   modifies nothing
+//@ func (*RetentionPolicyInfo).unmarshal
+//@   props C07
+//@   nosafety
+//@   requires pb != nil
+//@   loop 1 invariant scalars_stay: rpi.Name == str(pb.Name) && rpi.ReplicaN == u64(pb.ReplicaN) && rpi.Duration == i64(pb.Duration) && rpi.ShardGroupDuration == i64(pb.ShardGroupDuration) && len(rpi.ShardGroups) == len(pb.ShardGroups)
+//@   loop 2 invariant scalars_stay: rpi.Name == str(pb.Name) && rpi.ReplicaN == u64(pb.ReplicaN) && rpi.Duration == i64(pb.Duration) && rpi.ShardGroupDuration == i64(pb.ShardGroupDuration) && (len(pb.ShardGroups) > 0 ==> len(rpi.ShardGroups) == len(pb.ShardGroups)) && len(rpi.Subscriptions) == len(pb.Subscriptions)
+//@   ensures restores_name_replication_and_durations: rpi.Name == str(pb.Name) && rpi.ReplicaN == u64(pb.ReplicaN) && rpi.Duration == i64(pb.Duration) && rpi.ShardGroupDuration == i64(pb.ShardGroupDuration)
+//@   ensures one_element_per_message: (len(pb.ShardGroups) > 0 ==> len(rpi.ShardGroups) == len(pb.ShardGroups)) && (len(pb.Subscriptions) > 0 ==> len(rpi.Subscriptions) == len(pb.Subscriptions))
+//@   modifies RetentionPolicyInfo.all, ShardGroupInfo.all, ShardInfo.all, ShardOwner.all, SubscriptionInfo.all
+//@   callee_requires_assumed
+
+//@ func (DatabaseInfo).marshal
+//@   props C07
+//@   nosafety
+//@   loop 1 invariant building: pb != nil && fresh(pb) && str(pb.Name) == di.Name && str(pb.DefaultRetentionPolicy) == di.DefaultRetentionPolicy && len(pb.RetentionPolicies) == len(di.RetentionPolicies)
+//@   loop 2 invariant building: pb != nil && fresh(pb) && str(pb.Name) == di.Name && str(pb.DefaultRetentionPolicy) == di.DefaultRetentionPolicy && len(pb.RetentionPolicies) == len(di.RetentionPolicies) && len(pb.ContinuousQueries) == len(di.ContinuousQueries)
+//@   ensures carries_names: result != nil && str(result.Name) == di.Name && str(result.DefaultRetentionPolicy) == di.DefaultRetentionPolicy
+//@   ensures one_message_per_element: len(result.RetentionPolicies) == len(di.RetentionPolicies) && len(result.ContinuousQueries) == len(di.ContinuousQueries)
+//@   modifies nothing
+//@   callee_requires_assumed
+//@ func (*DatabaseInfo).unmarshal
+//@   props C07
+//@   nosafety
+//@   requires pb != nil
+//@   loop 1 invariant names_stay: di.Name == str(pb.Name) && di.DefaultRetentionPolicy == str(pb.DefaultRetentionPolicy) && len(di.RetentionPolicies) == len(pb.RetentionPolicies)
+//@   loop 2 invariant names_stay: di.Name == str(pb.Name) && di.DefaultRetentionPolicy == str(pb.DefaultRetentionPolicy) && (len(pb.RetentionPolicies) > 0 ==> len(di.RetentionPolicies) == len(pb.RetentionPolicies)) && len(di.ContinuousQueries) == len(pb.ContinuousQueries)
+//@   ensures restores_names: di.Name == str(pb.Name) && di.DefaultRetentionPolicy == str(pb.DefaultRetentionPolicy)
+//@   ensures one_element_per_message: (len(pb.RetentionPolicies) > 0 ==> len(di.RetentionPolicies) == len(pb.RetentionPolicies)) && (len(pb.ContinuousQueries) > 0 ==> len(di.ContinuousQueries) == len(pb.ContinuousQueries))
+//@   modifies DatabaseInfo.all, RetentionPolicyInfo.all, ShardGroupInfo.all, ShardInfo.all, ShardOwner.all, SubscriptionInfo.all, ContinuousQueryInfo.all
+//@   callee_requires_assumed
+
+//@ func (UserInfo).marshal
+//@   props C07
+//@   nosafety
+//@   loop 1 invariant building: pb != nil && fresh(pb) && str(pb.Name) == ui.Name && str(pb.Hash) == ui.Hash && pbool(pb.Admin) == ui.Admin && (cap(pb.Privileges) == 0 || fresh(pb.Privileges))
+//@   ensures carries_name_hash_and_admin_flag: result != nil && str(result.Name) == ui.Name && str(result.Hash) == ui.Hash && pbool(result.Admin) == ui.Admin
+//@   modifies nothing
+//@ func (*UserInfo).unmarshal
+//@   props C07
+//@   nosafety
+//@   requires pb != nil
+//@   loop 1 invariant scalars_stay: ui.Name == str(pb.Name) && ui.Hash == str(pb.Hash) && ui.Admin == pbool(pb.Admin) && ui.Privileges != nil
+//@   ensures restores_name_hash_and_admin_flag: ui.Name == str(pb.Name) && ui.Hash == str(pb.Hash) && ui.Admin == pbool(pb.Admin) && ui.Privileges != nil
+//@   modifies UserInfo.all
